@@ -252,10 +252,16 @@ def _tier_b(ctx) -> list[Inst]:
             d = diff_tables(table, ref_table)
         except Exception as e:      # rendering only
             d = f'tables differ (rendering failed: {e})'
-        # tier B decides only NEAR the reference: the same tests (essential atoms, at every nesting level) with a
-        # different outcome somewhere.  A table over other tests is a restructured function - which this comparison
+        # tier B decides only NEAR the reference: the same tests (essential atoms at every nesting level, up to the
+        # constants and the strictness of comparisons inside them) with a different outcome somewhere.  A table over other tests is a restructured function - which this comparison
         # cannot tell from a changed one: unproven.
-        if not extra and sorted(map(repr, _all_atoms(table, []))) != sorted(map(repr, _all_atoms(ref_table, []))):
+        if not extra:
+            # term kinds / method names the reference never uses: the values are computed another way (restructured)
+            newk = sorted(_kinds(table, set()) - _kinds(ref_table, set()))
+            if newk:
+                extra = [f'<computed with constructs the reference does not use: {newk[:6]}>']
+        if not extra and sorted(map(repr, map(_skeleton, _all_atoms(table, [])))) != \
+                sorted(map(repr, map(_skeleton, _all_atoms(ref_table, [])))):
             extra = ['<other tests than the reference: restructured>']
         if extra:
             insts.append(Inst(RULE, fname, construct, 'unproven',
@@ -434,4 +440,35 @@ def _all_atoms(t, acc):
             acc.append(tuple(t[1]))
         for x in t:
             _all_atoms(x, acc)
+    return acc
+
+
+def _skeleton(t):
+    """an atom (or tuple of atoms) with literal constants blanked and < / <= identified: `len(x) == 1` and
+    `len(x) == 2`, `a < b` and `a <= b` are the same test asked with another constant / strictness"""
+    if isinstance(t, tuple):
+        if t and t[0] == 'lit' and len(t) == 3:
+            return ('lit', t[1], '?')
+        if t and t[0] == 'const':
+            return ('const', '?')
+        if t and t[0] in ('lt', 'le'):
+            return ('cmp',) + tuple(_skeleton(x) for x in t[1:])
+        return tuple(_skeleton(x) for x in t)
+    return t
+
+
+_KIND_NEUTRAL = {'not', 'and', 'or', 'bf', 'const', 'lit', 'table', 'out', 'v', 'arg', 'ite', 'eq', 'lt', 'le', 'new'}
+
+
+def _kinds(t, acc):
+    """term constructors and method / function names occurring in a table"""
+    if isinstance(t, tuple) and t:
+        if isinstance(t[0], str):
+            if t[0] in ('mcall', 'call') and len(t) > 1 and isinstance(t[1], str):
+                acc.add(t[0] + ':' + t[1])
+            elif t[0] not in _KIND_NEUTRAL:
+                acc.add(t[0])
+        for x in t:
+            if isinstance(x, tuple):
+                _kinds(x, acc)
     return acc
